@@ -1,0 +1,31 @@
+//go:build verif
+
+package rockredis
+
+import (
+	"sync/atomic"
+
+	"github.com/youzan/ZanRedisDB/engine"
+)
+
+// Read-only accessors for the verification harness (/verif, group Valid, property C11).
+// Built only with -tags verif.
+
+// VerifScanAll calls f for every key/value pair stored in the engine, in engine order
+// (committed data only; the pending default write batch is not visible).
+func (r *RockDB) VerifScanAll(f func(k, v []byte)) error {
+	it, err := r.rockEng.GetIterator(engine.IteratorOpts{})
+	if err != nil {
+		return err
+	}
+	defer it.Close()
+	for it.SeekToFirst(); it.Valid(); it.Next() {
+		f(it.Key(), it.Value())
+	}
+	return nil
+}
+
+// VerifIsBatching reports whether a shared batch is open (BeginBatchWrite without commit/abort).
+func (r *RockDB) VerifIsBatching() bool {
+	return atomic.LoadInt32(&r.isBatching) == 1
+}
